@@ -40,7 +40,17 @@ func HarnessOptionMapOrder() {
 	u := j5schema.VerifNewUniverse(fdp)
 	fd := u.Message("x.v1.Opts").Fields().ByName("info")
 	n := ndIntRange("entries", 0, verifParam("N", 3))
+	// keys: a fixed stem and one symbolic letter each (distinct keys, which may
+	// differ only in case)
 	keys := []string{"colour", "size", "a"}
+	for i := 0; i < n; i++ {
+		c := ndByte("keyLetter")
+		verifAssume(verifAny(verifAll(c >= 'A', c <= 'Z'), verifAll(c >= 'a', c <= 'z')))
+		keys[i] = "k" + string([]byte{c})
+		for j := 0; j < i; j++ {
+			verifAssume(keys[i] != keys[j])
+		}
+	}
 	build := func(order []int) protoreflect.Map {
 		m := j5schema.VerifNewDynMap(fd)
 		for i := 0; i < n; i++ {
